@@ -295,6 +295,61 @@ def gen_coll_evp(ctx, f, name=None):
     return name
 
 
+def gen_C03_relmix(rng):
+    """relation collections whose minterms agree on the upper variables and, at one
+    variable, all leave the unprimed side free while some say "unchanged" and others
+    "any value" on the primed side (plus minterms fixing it): the group is neither all
+    don't-care nor all don't-change at that level"""
+    ctx = Ctx(rng)
+    preamble(ctx, True, ranges=("bool", "int", "int", "real"), nforests=2)
+    forests = list(ctx.forests)
+    if rng.random() < 0.4:
+        fe = Forest("FE", ctx.doms[0], True, "int", "evp", rng.choice(RULES_REL), rand_opts(rng))
+        ctx.emit(fe.decl())
+        forests.append(fe)
+    d = ctx.doms[0]
+    k = len(d.sizes)
+    for _ in range(rng.randint(2, 5)):
+        f = rng.choice(forests)
+        v = rng.randrange(k)                       # the mixed variable (0-based, bottom up)
+        upper = []
+        for j in range(v + 1, k):
+            upper.append(rng.choice([["x", "x"], ["x", "="], [str(rng.randrange(d.sizes[j])), str(rng.randrange(d.sizes[j]))],
+                                     [str(rng.randrange(d.sizes[j])), "x"]]))
+        n = rng.randint(2, 4)
+        kinds = [["x", "="], ["x", "x"]] + [rng.choice([["x", "="], ["x", "x"], ["x", str(rng.randrange(d.sizes[v]))]])
+                                             for _ in range(n - 2)]
+        rng.shuffle(kinds)
+        evp = (f.lab == "evp")
+        mode = rng.choice(["max", "min"])
+        if evp:
+            deflt = "0" if mode == "max" else "inf"
+            vals = ["1", "2", "3", "5", "8"]
+        elif f.range == "bool":
+            mode, deflt, vals = "max", "0", ["1"]
+        else:
+            if mode == "max":
+                deflt = "0"
+                vals = ["1", "2", "3", "5", "7"] if f.range == "int" else ["32", "64", "96", "128"]
+            else:
+                deflt = "9" if f.range == "int" else "160"
+                vals = ["1", "2", "3", "5", "7"] if f.range == "int" else ["32", "64", "96", "128"]
+        name = ctx.fresh()
+        parts = ["coll", name, f.name, mode, deflt]
+        for kd in kinds:
+            pos = []
+            for j in range(v):
+                pos += rng.choice([["x", "x"], ["x", "="], [str(rng.randrange(d.sizes[j])), str(rng.randrange(d.sizes[j]))],
+                                   [str(rng.randrange(d.sizes[j])), "="]])
+            pos += kd
+            for u in upper:
+                pos += u
+            parts += [";"] + pos + ["=>", rng.choice(vals)]
+        ctx.emit(" ".join(parts))
+        ctx.edges[name] = f
+    return ctx.text()
+
+
 def gen_C03(rng):
     ctx = Ctx(rng)
     rel = rng.random() < 0.5
@@ -759,6 +814,61 @@ def gen_evstar(rng):
         else:
             f = rng.choice(mts)
             gen_leaf(ctx, f)
+    return ctx.text()
+
+
+def gen_C05_diag(rng):
+    """element-wise operations whose result, in an identity-reduced relation forest that
+    reclaims eagerly, has rows i with i -> i as the only non-transparent primed entry and a
+    real (non-identity) sub-matrix below: the freshly built primed singleton node is
+    bypassed (redirected) and released right away"""
+    ctx = Ctx(rng)
+    ctx.emit("init " + rand_ctopts(rng))
+    k = rng.choice([2, 2, 3])
+    d = Domain("D", [rng.choice([2, 3]) for _ in range(k)])
+    ctx.emit(d.decl())
+    ctx.doms.append(d)
+    rg = rng.choice(["int", "int", "real"])
+    fa = Forest("A", d, True, rg, "mt", rng.choice(RULES_REL), rand_opts(rng))
+    fr = Forest("F", d, True, rg, "mt", "ir", "del=pess " + rng.choice(["", "storage=full", "storage=sparse", "mm=heap"]))
+    ctx.emit(fa.decl())
+    ctx.emit(fr.decl())
+    ctx.forests = [fa, fr]
+    vals = ["1", "2", "3", "5"] if rg == "int" else ["32", "64", "96", "128"]
+    names = []
+    for i in range(rng.randint(2, 4)):
+        nm = "m%d" % i
+        f = rng.choice([fa, fr])
+        parts = ["coll", nm, f.name, "max", "0"]
+        for _ in range(rng.choice([1, 2, 3])):
+            pos = []
+            for v in range(k - 1):
+                a = rng.randrange(d.sizes[v])
+                pos += rng.choice([[str(a), str(rng.randrange(d.sizes[v]))], ["x", str(rng.randrange(d.sizes[v]))],
+                                   [str(a), "x"]])
+            t = rng.randrange(d.sizes[k - 1])
+            pos += [str(t), str(t)]                      # top variable: i -> i
+            parts += [";"] + pos + ["=>", rng.choice(vals)]
+        ctx.emit(" ".join(parts))
+        ctx.edges[nm] = f
+        names.append(nm)
+    ops = ["plus", "max", "min", "mult", "minus"] if rg == "int" else ["plus", "max", "min"]
+    for _ in range(rng.randint(3, 7)):
+        a, b = rng.choice(names), rng.choice(names)
+        n = ctx.fresh()
+        ctx.emit("apply %s F %s %s %s" % (n, rng.choice(ops), a, b))
+        ctx.edges[n] = fr
+        if rng.random() < 0.4:
+            ctx.emit("audit F")
+        if rng.random() < 0.3:
+            ctx.emit("release %s" % n)
+            ctx.edges.pop(n)
+        elif rng.random() < 0.3:
+            names.append(n)
+    ctx.emit("audit F")
+    for e in list(ctx.edges):
+        if ctx.edges[e] is fr:
+            ctx.emit("show %s" % e)
     return ctx.text()
 
 
@@ -1766,6 +1876,63 @@ def gen_C11_ev(rng):
     return ctx.text()
 
 
+def gen_C14_trunc(rng):
+    """exchange files between forests of different storage policies: a full-only writer
+    puts truncated full nodes into the file (trailing transparent entries dropped), the
+    reader's forest stores sparsely.  Many pairs of nodes at one level where one is the
+    other plus one more entry just past its end, written next to each other, so that
+    the reader's duplicate test compares a stored sparse node with a shorter truncated
+    full node"""
+    ctx = Ctx(rng)
+    ctx.emit("init " + rand_ctopts(rng))
+    w = rng.choice([8, 10, 12])
+    two = rng.random() < 0.4
+    sizes = [w, 2] if two else [w]
+    d = Domain("D", sizes)
+    ctx.emit(d.decl())
+    ctx.doms.append(d)
+    rg = rng.choice(["int", "int", "bool"])
+    rule = rng.choice(RULES_SET)
+    fw = Forest("W", d, False, rg, "mt", rule, "storage=full")
+    ft = Forest("T", d, False, rg, "mt", rule, rng.choice(["storage=sparse", "storage=sparse", "storage=both", ""]))
+    ctx.emit(fw.decl())
+    ctx.emit(ft.decl())
+    ctx.forests += [fw, ft]
+    roots = []
+    seen = set()
+    for i in range(rng.randint(8, 16)):
+        j = rng.randint(1, w - 1)                       # length of the shorter node
+        vals = [rng.choice(["0", "1"] if rg == "bool" else ["0", "1", "2", "3", "5", "7", "12", "14"]) for _ in range(j)]
+        if rg == "bool":
+            vals[j - 1] = "1"
+        elif vals[j - 1] == "0":
+            vals[j - 1] = "4"
+        extra = "1" if rg == "bool" else rng.choice(["1", "2", "3", "5", "7", "12", "14"])
+        key = (tuple(vals), extra)
+        if key in seen:
+            continue
+        seen.add(key)
+        for nm, vs in (("S%d" % i, vals + [extra]), ("n%d" % i, vals)):
+            parts = ["coll", nm, "W", "max", "0"]
+            for idx, v in enumerate(vs):
+                if v != "0":
+                    pos = [str(idx)] + (["x"] if two else [])
+                    parts += [";"] + pos + ["=>", v]
+            ctx.emit(" ".join(parts))
+            ctx.edges[nm] = fw
+            roots.append(nm)
+    ctx.emit("write f W %s" % " ".join(roots))
+    targets = [("read", "T"), ("read", "W"), ("readnew", "N D")]
+    rng.shuffle(targets)
+    for ti, (cmd, tgt) in enumerate([("read", "T")] + targets[: rng.randint(0, 2)]):
+        rn = ["r%d_%d" % (ti, i) for i in range(len(roots))]
+        ctx.emit("%s f %s %s" % (cmd, tgt, " ".join(rn)))
+        for i, r in enumerate(rn):
+            ctx.emit("show %s" % r)
+        ctx.emit("audit %s" % tgt.split()[0])
+    return ctx.text()
+
+
 def gen_C14_ev(rng):
     """exchange files of EV+ forests: written roots read back into the same forest, a
     twin forest and a forest created from the file denote the same functions exactly
@@ -2208,6 +2375,60 @@ def gen_C08_dist(rng):
         L.append("apply b%d S %sreach_nofs s%d r%d" % (m, pre, m, m))
         L.append("eq a%d b%d" % (m, m))
     return "\n".join(L) + "\n"
+
+
+def gen_C08_recycle(rng):
+    """saturation called again and again on ONE pair of forests with relations that are
+    built, used, released and really reclaimed in between (pessimistic deletion, compute
+    tables cleared): the next relation has the same shape, so its nodes get the handles of
+    the previous one -- whatever the operation remembers about a relation by handle is
+    stale by then.  Every result is compared with the breadth-first one."""
+    ctx = Ctx(rng)
+    ctx.emit("init " + rand_ctopts(rng))
+    d = rand_domain(rng, "D", False, 40, 3)
+    ctx.emit(d.decl())
+    kind = rng.choice(["bool", "bool", "evp"])
+    if kind == "bool":
+        S = Forest("S", d, False, "bool", "mt", rng.choice(RULES_SET), rand_opts(rng))
+    else:
+        S = Forest("S", d, False, "int", "evp", rng.choice(RULES_SET), rand_opts(rng))
+    R = Forest("R", d, True, "bool", "mt", "ir", "del=pess " + rng.choice(["", "storage=full", "storage=sparse"]))
+    ctx.emit(S.decl())
+    ctx.emit(R.decl())
+    shape = []          # which variables move, kept over the rounds (same shape, other values)
+    for sz in d.sizes:
+        shape.append(rng.choice(["move", "move", "keep"]))
+    if "move" not in shape:
+        shape[0] = "move"
+    for rnd in range(rng.randint(3, 6)):
+        r, s = "r%d" % rnd, "s%d" % rnd
+        parts = ["coll", r, "R", "max", "0"]
+        for _ in range(rng.choice([1, 2])):
+            pos = []
+            for sz, sh in zip(d.sizes, shape):
+                if sh == "move":
+                    a = rng.randrange(sz)
+                    pos += [str(a), str(rng.choice([x for x in range(sz) if x != a]))]
+                else:
+                    pos += ["x", "="]
+            parts += [";"] + pos + ["=>", "1"]
+        ctx.emit(" ".join(parts))
+        if kind == "bool":
+            ctx.emit("coll %s S max 0 ; %s => 1" % (s, " ".join(str(rng.randrange(z)) for z in d.sizes)))
+        else:
+            ctx.emit("coll %s S min inf ; %s => 0" % (s, " ".join(str(rng.randrange(z)) for z in d.sizes)))
+        back = "r" if rng.random() < 0.25 else ""
+        ctx.emit("apply a%d S %sreach_sat %s %s" % (rnd, back, s, r))
+        ctx.emit("apply b%d S %sreach_nofs %s %s" % (rnd, back, s, r))
+        ctx.emit("eq a%d b%d" % (rnd, rnd))
+        for e in (r, "a%d" % rnd, "b%d" % rnd, s):
+            if rng.random() < 0.9 or e == r:
+                ctx.emit("release %s" % e)
+        if rng.random() < 0.8:
+            ctx.emit("clearct")
+    ctx.emit("audit S")
+    ctx.emit("audit R")
+    return ctx.text()
 
 
 def gen_C08(rng):
